@@ -1461,7 +1461,7 @@ impl<'a> Gen<'a> {
                 toks.push(Tok::Card { idx, spell, tail });
                 if junk_rate > 0 && self.rng.chance(1, 8) {
                     // a look-alike of the token just parsed, right behind it
-                    toks.push(Tok::Alias { idx, spell, mode: self.rng.below(8) as u8 });
+                    toks.push(Tok::Alias { idx, spell, mode: self.rng.below(12) as u8 });
                 }
             }
         }
@@ -1743,7 +1743,7 @@ impl World for C15 {
         for i in 0..52u8 {
             let mut ops = Vec::new();
             for sp in 0..spellings(i as usize) as u8 {
-                for mode in 0..8u8 {
+                for mode in 0..12u8 {
                     ops.push(Op::BuildText { dst: 0, tokens: vec![Tok::Card { idx: i, spell: sp, tail: 0 }, Tok::Alias { idx: i, spell: sp, mode }], seps: vec![0], lead: 0, trail: 0 });
                     ops.push(Op::BuildText { dst: 1, tokens: vec![Tok::Alias { idx: i, spell: sp, mode }], seps: vec![], lead: 0, trail: 0 });
                     ops.push(Op::Valid { r: 1 });
@@ -1768,6 +1768,11 @@ impl World for C15 {
                     Op::Drain { r: 3 },
                 ],
             ));
+        }
+        // card tokens with every tail, short and long (C12: a token is a card iff it starts with rank+suit)
+        for t in 1..TAILS.len() as u8 {
+            let toks: Vec<Tok> = [0u8, 17, 30, 51].iter().map(|i| Tok::Card { idx: *i, spell: (*i % 12), tail: t }).collect();
+            out.push((format!("card tokens with tail #{}", t), vec![Op::BuildText { dst: 0, tokens: toks, seps: vec![0, 2, 3], lead: 0, trail: 0 }, Op::Count { r: 0 }, Op::Drain { r: 0 }]));
         }
         let whole: Vec<Tok> = (0..52u8).rev().map(|i| Tok::Card { idx: i, spell: i % 12, tail: 0 }).collect();
         out.push(("whole deck as text, reversed, then drain".into(), vec![Op::BuildText { dst: 0, tokens: whole.clone(), seps: (0..51).map(|i| (i as usize % SEPARATORS.len()) as u8).collect(), lead: 8, trail: 4 }, Op::Count { r: 0 }, Op::Drain { r: 0 }]));
